@@ -1,7 +1,7 @@
 (* Wire format of the matchlab correspondence (C05). *)
 From Coq Require Import List String Ascii Bool Arith ZArith.
 Import ListNotations.
-From ClasticV Require Import Base.Py Base.Strs Base.Sx Base.Rx Gen.RouteLex Model.Pattern Model.Match.
+From ClasticV Require Import Base.Py Base.Strs Base.Sx Base.Rx Gen.RouteLex Model.Pattern Model.Match Model.RouteRx.
 Local Open Scope string_scope.
 Local Open Scope list_scope.
 
@@ -35,6 +35,31 @@ Definition run_matchlab (s : sexp) : sexp :=
                                                        end
                                            | _ => [bad_input] end)
                                  (combine (seq 0 (List.length paths)) paths))]
+      end
+  | _ => bad_input
+  end.
+
+(* the regular expression the model assembles for a pattern, as a tree (compared with Python's own parse of
+   BoundRoute.regex.pattern), and the well-formedness flag the language theorem needs *)
+Fixpoint e_rx (r : rx) : sexp :=
+  match r with
+  | REmp => A "emp"
+  | REps => A "eps"
+  | RCls neg rs => L [A "cls"; ebool neg; L (map (fun ab => L [enat (fst ab); enat (snd ab)]) rs)]
+  | RCat a b => L [A "cat"; e_rx a; e_rx b]
+  | RAlt a b => L [A "alt"; e_rx a; e_rx b]
+  | RStar a => L [A "star"; e_rx a]
+  end.
+
+(* input: (pattern mode) *)
+Definition run_routerx (s : sexp) : sexp :=
+  match s with
+  | L [A pattern; A mode] =>
+      match parse_pattern pattern with
+      | Raise c => L [A "raise"; A c]
+      | Ok p =>
+          let m := if String.eqb mode "strict" then MStrict else MTolerant in
+          L [A "ok"; e_rx (route_rx m p); ebool (pat_ok p)]
       end
   | _ => bad_input
   end.
